@@ -3,13 +3,14 @@ package main
 // govc check -prop Cxx -tier quick|thorough : the registered check of one property.
 
 import (
-	"context"
-	"os/exec"
 	"bufio"
+	"context"
 	"encoding/json"
 	"flag"
 	"fmt"
+	"golang.org/x/tools/go/ssa"
 	"os"
+	"os/exec"
 	"path/filepath"
 	"sort"
 	"strings"
@@ -140,6 +141,7 @@ func checkMain(args []string) {
 		ob *Obligation
 	}
 	var sels []sel
+	selByOb := map[*Obligation]*ssa.Function{}
 	var jobs []*job
 	funcs := map[string]bool{}
 	trusted := map[string]bool{}
@@ -183,6 +185,7 @@ func checkMain(args []string) {
 			j := &job{ob: ob, path: obFile(outDir, r.Name+"__"+ob.Name)}
 			jobs = append(jobs, j)
 			sels = append(sels, sel{r, ob})
+			selByOb[ob] = r.Fn
 		}
 	}
 	timeout := 20
@@ -283,10 +286,30 @@ func checkMain(args []string) {
 			continue
 		}
 		rp := filepath.Join(replayDir, sanitize(full)+".json")
-		writeReplay(rp, *prop, full, ob, j)
 		suffix := " no-failing-input-found"
+		var rep *ReplayReport
+		if j.res.Status == "sat" && ob.Kind == "lemma" {
+			if l := eng.lemmaByName(strings.TrimPrefix(ob.Name, "lemma/")); l != nil {
+				r := eng.replayLemma(l, replayDir)
+				rep = &r
+				if r.Confirmed {
+					suffix = ""
+				}
+			}
+		}
+		if j.res.Status == "sat" && ob.Kind == "post" && ob.Clause != nil {
+			r := eng.replayPost(selByOb[ob], ob.Clause, j.path, replayDir, sanitize(full))
+			rep = &r
+			if r.Confirmed {
+				suffix = ""
+			}
+		}
+		writeReplay(rp, *prop, full, ob, j, rep)
 		fmt.Printf("VIOLATION property=%s replay=%s%s\n", *prop, rp, suffix)
 		fmt.Printf("  obligation %s (%s) not discharged: %s by %s; %s\n", full, ob.Kind, j.res.Status, j.res.Solver, ob.Pos)
+		if rep != nil {
+			fmt.Printf("  replay on the compiled code: %s\n", rep.Note)
+		}
 		violations++
 	}
 	for _, u := range unsupported {
@@ -364,26 +387,26 @@ func checkMain(args []string) {
 		"violations":  violations,
 		"assumptions": append(sortedSet(assumptions), "the VC generator (govc) itself is unverified; see DESIGN.md §9"),
 		"coverage": map[string]any{
-			"obligations":            nOb,
-			"discharged":             nDis,
-			"checker_cmd":            fmt.Sprintf("/verif/bin/govc check -prop %s -tier %s  (go/ssa VC generation over /repo's working tree with -tags verif; z3-new 5.1.0, z3 4.8.12, cvc5 1.0.3 raced per obligation, %ds timeout)", *prop, *tier, timeout),
-			"trusted_base":           sortedSet(trusted),
+			"obligations":              nOb,
+			"discharged":               nDis,
+			"checker_cmd":              fmt.Sprintf("/verif/bin/govc check -prop %s -tier %s  (go/ssa VC generation over /repo's working tree with -tags verif; z3-new 5.1.0, z3 4.8.12, cvc5 1.0.3 raced per obligation, %ds timeout)", *prop, *tier, timeout),
+			"trusted_base":             sortedSet(trusted),
 			"functions_under_contract": sortedSet(funcs),
-			"discharged_by_backend":  bySolver,
-			"solver_time_s":          solverTime,
-			"load_s":                 loadS,
-			"vcgen_s":                genS,
-			"vacuity_guards":         map[string]int{"canaries_and_covers": nCanary, "satisfiable_as_required": nCanaryOK},
+			"discharged_by_backend":    bySolver,
+			"solver_time_s":            solverTime,
+			"load_s":                   loadS,
+			"vcgen_s":                  genS,
+			"vacuity_guards":           map[string]int{"canaries_and_covers": nCanary, "satisfiable_as_required": nCanaryOK},
 			"unreachable_loop_exits_under_assumed_type_invariants": deadList,
-			"uncontracted_callees_havoced": sortedSet(uncontr),
-			"bounded_standins":       sortedSet(bounded),
-			"contract_files":         eng.contracts.Files,
-			"assumption_scan":        eng.contracts.Scan,
-			"samples":                samples,
-			"per_obligation":         recs,
-			"locked_obligations":     len(lock),
-			"shared_state_scan":      sharedScan,
-			"generated_but_not_claimed": append(notClaimed, skippedQuick...),
+			"uncontracted_callees_havoced":                         sortedSet(uncontr),
+			"bounded_standins":                                     sortedSet(bounded),
+			"contract_files":                                       eng.contracts.Files,
+			"assumption_scan":                                      eng.contracts.Scan,
+			"samples":                                              samples,
+			"per_obligation":                                       recs,
+			"locked_obligations":                                   len(lock),
+			"shared_state_scan":                                    sharedScan,
+			"generated_but_not_claimed":                            append(notClaimed, skippedQuick...),
 		},
 	}
 	b, _ := json.MarshalIndent(ev, "", " ")
@@ -398,7 +421,7 @@ func checkMain(args []string) {
 	}
 }
 
-func writeReplay(path, prop, full string, ob *Obligation, j *job) {
+func writeReplay(path, prop, full string, ob *Obligation, j *job, rep *ReplayReport) {
 	m := map[string]any{
 		"property":      prop,
 		"obligation":    full,
@@ -426,6 +449,12 @@ func writeReplay(path, prop, full string, ob *Obligation, j *job) {
 				m["solver_model"] = txt
 				m["replay"] = "the solver returned a counterexample to the verification condition (solver_model); it was not replayed against the compiled code (DESIGN.md 11.6)"
 			}
+		}
+	}
+	if rep != nil {
+		m["replay_on_real_code"] = rep
+		if rep.Confirmed {
+			m["replay"] = "the solver's counterexample was replayed on the compiled code and fails there: see replay_on_real_code (inputs, test_file, command, output)"
 		}
 	}
 	b, _ := json.MarshalIndent(m, "", " ")
